@@ -15,7 +15,14 @@ Model of a class statement `class C(B0, .., Bk-1): [signals = [...]]` (k <= 3):
   * names are opaque individuals (kind "SigName"), lists have unknown length.
 `register_signal` (`Signals.register`, verified in contracts/C14_disconnect.py: the registry maps the class to exactly
 the list it is given) is seen as a ghost event.  `list(dict.fromkeys(xs).keys())` is a builtin model (first occurrences
-in order; axioms below, cross-checked against CPython by a static check); `type.__init__` is a no-op (pyvc)."""
+in order; per-index facts below, cross-checked against CPython by a static check); `type.__init__` is a no-op (pyvc).
+The ORDER of the registered names (own, then base by base) is how the collection is pinned down here; the statement
+itself only needs the two membership clauses derived from it.
+
+Not claimed here (bounded: C14/metaclass-inherited-names): that the class attribute `signals` of a class WITHOUT an own
+declaration shows the names of all its bases to ITS subclasses -- on the current tree it does not (`d["signals"] = ...`
+writes the namespace dict after type.__new__ copied it, the attribute stays the first base's list), so a grandchild of
+`class AB(A, B): pass` loses B's names (candidate defect, reported)."""
 import itertools
 
 import z3
